@@ -50,6 +50,13 @@ pub struct GenCfg {
     /// unless `use_paths` is set)
     #[serde(default)]
     pub paths_at_start: bool,
+    /// C08: after every text change, request code actions at every position inside every
+    /// published diagnostic range (bounded)
+    #[serde(default)]
+    pub position_probe: bool,
+    /// prefer texts with astral/combining characters, CRLF, no trailing newline
+    #[serde(default)]
+    pub unicode_heavy: bool,
 }
 
 pub fn doc_path(name: &str) -> String {
@@ -91,6 +98,7 @@ pub struct Generator {
     started: bool,
     restarts: usize,
     pub finished: bool,
+    probe_pending: Option<String>,
 }
 
 fn msg(wait: bool, json: Value) -> ScriptEntry {
@@ -113,7 +121,7 @@ pub fn request(id: i64, method: &str, params: Value) -> Value {
 impl Generator {
     pub fn new(cfg: GenCfg) -> Self {
         let remaining = cfg.messages;
-        Generator { cfg, queue: VecDeque::new(), remaining, started: false, restarts: 0, finished: false }
+        Generator { cfg, queue: VecDeque::new(), remaining, started: false, restarts: 0, finished: false, probe_pending: None }
     }
 
     fn boot(&mut self, c: &Client, next_id: &mut i64, reopen: bool) {
@@ -135,6 +143,12 @@ impl Generator {
         }
     }
 
+    /// The next entry depends on what the server will have published for the last change:
+    /// it can only be generated once the server is quiescent.
+    pub fn needs_quiet(&self) -> bool {
+        self.queue.is_empty() && self.probe_pending.is_some()
+    }
+
     /// Entries that must follow regardless of the message budget (shutdown sequence etc.).
     pub fn has_queued(&self) -> bool {
         !self.queue.is_empty()
@@ -148,6 +162,50 @@ impl Generator {
         }
         if let Some(e) = self.queue.pop_front() {
             return Some(e);
+        }
+        if let Some(uri) = self.probe_pending.take() {
+            // the publish for the changed text has arrived by now (probing runs sequentially)
+            if let Some(d) = c.doc(&uri) {
+                if d.open {
+                    let src: Vec<char> = d.text.chars().collect();
+                    let diags = c.last_publish(&uri).map(|p| p.diags.clone()).unwrap_or_default();
+                    let mut positions: Vec<(u32, u32)> = vec![];
+                    for g in diags.iter().take(8) {
+                        let (a, b) = (super::reference::pos_to_index(&src, g.sl, g.sc), super::reference::pos_to_index(&src, g.el, g.ec));
+                        if let (Some(a), Some(b)) = (a, b) {
+                            let mut idxs: Vec<usize> = (a..b.max(a)).collect();
+                            if idxs.len() > 10 {
+                                // first, last and a seeded sample of the interior
+                                let mut keep = vec![idxs[0], idxs[idxs.len() - 1]];
+                                for _ in 0..8 {
+                                    keep.push(*rng.pick(&idxs));
+                                }
+                                keep.sort();
+                                keep.dedup();
+                                idxs = keep;
+                            }
+                            for i in idxs {
+                                positions.push(super::reference::index_to_pos(&src, i));
+                            }
+                        }
+                    }
+                    positions.sort();
+                    positions.dedup();
+                    for (k, (line, ch)) in positions.into_iter().enumerate() {
+                        self.queue.push_back(msg(
+                            true,
+                            request(
+                                next_id + k as i64,
+                                "textDocument/codeAction",
+                                json!({"textDocument":{"uri":uri},"range":{"start":{"line":line,"character":ch},"end":{"line":line,"character":ch}},"context":{"diagnostics":[]}}),
+                            ),
+                        ));
+                    }
+                    if let Some(e) = self.queue.pop_front() {
+                        return Some(e);
+                    }
+                }
+            }
         }
         if self.remaining == 0 {
             if self.cfg.end_with_shutdown && !self.finished {
@@ -188,7 +246,8 @@ impl Generator {
             self.finished = true;
             return None;
         }
-        let entry = match rng.weighted(&ws) {
+        let choice = rng.weighted(&ws);
+        let entry = match choice {
             0 => {
                 let d = *rng.pick(&closed_docs);
                 let (text, pre) = match (&d.disk, rng.chance(1, 2)) {
@@ -307,6 +366,11 @@ impl Generator {
                 ScriptEntry { wait_quiet: false, op: Op::Kill { torn: None } }
             }
         };
+        if self.cfg.position_probe && (choice == 0 || choice == 1) {
+            if let Op::Msg { json, .. } = &entry.op {
+                self.probe_pending = json["params"]["textDocument"]["uri"].as_str().map(|s| s.to_string());
+            }
+        }
         Some(entry)
     }
 }
